@@ -95,7 +95,11 @@ func genC11(r *sim.Rand, tier string) *sim.Program {
 		}
 		switch r.Intn(8) {
 		case 0, 1, 2:
-			p.Add("write").WithB(r.Bytes(r.Near(80, 0, 1, 3, 4, 5, 15, 16, 17, 31, 32, 33, 64)))
+			wl := r.Near(80, 0, 1, 3, 4, 5, 15, 16, 17, 31, 32, 33, 64)
+			if big && r.Chance(1, 2) {
+				wl = r.Range(200, 6000)
+			}
+			p.Add("write").WithB(r.Bytes(wl))
 		case 3:
 			p.Add("sum")
 		case 4:
